@@ -90,6 +90,12 @@ CHECKS = {
         "Trusted: the width model in harness/src/checks/c19.rs (explicit code-point ranges; no ambiguous-width characters generated).",
         "4/C19",
     ),
+    "C20": (
+        "runtime monitor: exhaustive pools of (UPDATE_GOLDEN value, golden file state, got string) run through the real helper in fresh processes; exit status, directory snapshot (bytes, inode, mtime) and strace log of file/write system calls",
+        "All 600 combinations of 5 environment settings x 16 golden-file states (absent, LF, CRLF, mixed, lone CR, CR at EOF, non-ASCII, long) x up to 11 derived `got` strings (equal after normalisation, un-normalised, newline / whitespace / CR near-misses, one code point changed): without a non-empty UPDATE_GOLDEN the helper must succeed exactly when got equals the CRLF-normalised content, treat a missing file as an error, leave the directory byte-, inode- and mtime-identical and issue no write-class system call; with it, it must never fail, leave the file exactly equal to got and touch nothing else. Exhaustive over the pools.",
+        "Trusted: the probe binary (harness/src/golden_probe.rs, 15 lines) and strace's decoding of open flags.",
+        "4/C20",
+    ),
 }
 
 NOT_APPLICABLE = []
